@@ -48,8 +48,8 @@ def L(v):
     if isinstance(v, bool):
         return ('lit', v, 'TRUE' if v else 'FALSE')
     if v < 0:
-        return ('neg', ('lit', -v, repr(-v)))
-    return ('lit', v, repr(v))
+        return ('neg', ('lit', -v, subject.lit(-v)))
+    return ('lit', v, subject.lit(v))
 
 
 def cell(i):
@@ -95,7 +95,7 @@ class G:
             return ('bin', self.rng.choice(['>', '<', '=', '>=', '<>']),
                     cell(self.rng.randrange(4)),
                     L(self.rng.choice([0, 1, 2])))
-        return L(self.rng.choice([True, False, 0, 3]))
+        return L(self.rng.choice([True, False, 0, 3, 1e-17]))
 
     def logical(self, depth):
         r = self.rng.random()
@@ -385,7 +385,7 @@ def run(ctx):
     # ---- exhaustive: IF over every truth value, each poison, omitted else ---
     g = G(rng)
     work = 0
-    for cv in truth_values + [2.5, -1]:
+    for cv in truth_values + [2.5, -1, 1e-17, -5e-324]:
         for poison_kind in range(4):
             for omitted in (False, True):
                 work += 1
@@ -453,7 +453,8 @@ def run(ctx):
             item['poisoned'] = True
         if kind == 'if' and len(item['ast'][2]) == 2:
             item['omitted_else'] = True
-        asg = tuple(rng.choice(truth_values + [2.5]) for _ in range(4))
+        asg = tuple(rng.choice(truth_values + [2.5, 1e-17, -1e-300, 5e-324])
+                    for _ in range(4))
         if rng.random() < 0.25:
             # an error value in one of the cells (also reached through ranges)
             lst = list(asg)
